@@ -83,7 +83,7 @@ def generate(rng, tier):
                     yield {"runs": [["a", ATTS3[0]]] + [[s, ATTS3[1]]] * k + [[WIDE, ATTS3[2]]], "columns": [2, 3, 5],
                            "share": share}
     nrand = 8000 if tier == "thorough" else 400
-    alpha_ok = "ab " + WIDE * 3 + COMB * 2 + "中́x"
+    alpha_ok = "ab " + WIDE * 3 + COMB * 2 + "中́x\u0902\u0e34"      # incl. zero-width marks of combining class 0
     for k in range(nrand):
         alphabet = alpha_ok + "\n\t\x00\x7f" if k % 12 == 11 else alpha_ok
         runs = canon.rand_runs(rng, maxruns=5, maxlen=9, alphabet=alphabet)
